@@ -187,11 +187,12 @@ def run(ck, with_order=True):
                                      ("sfx", lambda x: df.is_call(x, "::suffix_context") and x[2][0] == W)],
                                     seqsyms=[("r", lambda x: df.is_call(x, "::remove_content") and x[2][0] == W)])
                 try:
-                    good = all(m4.val(e, env) == env["line"] + env["r"] - env["sfx"] for env in seqmodel.valuations(["line"], ["r", "sfx"], 3)) and \
-                        {"line", "r", "sfx"} <= m4.used
+                    # at least the end of the changed region, at most the end of the matched range (the stricter choice is fine for C03)
+                    good = all(env["line"] + env["r"] - env["sfx"] <= m4.val(e, env) <= env["line"] + env["r"]
+                               for env in seqmodel.valuations(["line"], ["r", "sfx"], 3) if env["sfx"] <= env["r"]) and {"line", "r"} <= m4.used
                 except seqmodel.Unsupported:
                     good = False
-        ck.require(good, rule, "frozen line = first line after the changed region of the hunk just applied",
+        ck.require(good, rule, "frozen line = first line after the changed region of the hunk just applied (or later)",
                    "last_frozen_line is set to %s" % shown, am.where(), ok_detail=shown)
     # engine D, restricted to normal mode: where a hunk is reported Applied its position is at or after the frozen line
     from .c04 import rollback_regions
